@@ -18,7 +18,7 @@ RULE = ('exhaustive hour grid: one recording per hour over 4 days (96) in catego
         'each day; then seeded random minute-level recordings and windows, with and without a metadata filter. A case = one '
         'query; distinct = (recording instants, start, end, now, filter); non-trivial = window contains or borders at least one recording day.')
 ASSUMPTIONS = ['process clock in UTC; every recording created and saved at the same instant (stated by the property)',
-               'fake bucket lists keys in lexicographic order and stamps last_modified from the harness clock']
+               'fake bucket lists keys in lexicographic order and stamps last_modified from the harness clock at full (microsecond) resolution']
 
 T0 = dt.datetime(2024, 2, 27, 0, 0, 0)   # spans Feb 29 and a month boundary
 
@@ -64,6 +64,66 @@ def query(ctx, reader, fake, ids, start, end, now, flt, tag):
         bad = sorted(str(ids[r][1]) for r in exp - gs)[:3]
         # classify by mechanism for readability only (no known finding is registered for it)
         ctx.violation('time-window listing misses recordings saved inside the window', dict(desc, missed=bad, n_missed=len(exp - gs)))
+
+
+def concurrent_day_change(ctx):
+    """One long-lived writable cassette shared by the recording threads of a process, across a calendar-day change: the first
+    recordings of the new day are created by two threads at the same time. Explored with the deterministic scheduler (source-line
+    granularity of the S3 modules); afterwards windows on either side of midnight must be exact."""
+    from vlib import sched as S
+    import playback.tape_cassettes.s3.s3_basic_facade as fmod
+    import playback.tape_cassettes.s3.s3_tape_cassette as cmod
+    tg = [fmod.__file__, cmod.__file__]
+    day1 = dt.datetime(2021, 3, 12, 23, 59, 30)
+    day2 = dt.datetime(2021, 3, 13, 0, 0, 0)
+    holder = {}
+
+    def make(sched):
+        fake = FakeS3()
+        cm = fake.installed()
+        cm.__enter__()
+        w = fake.cassette('w', key_prefix='dc', read_only=False)
+        ids = {}
+        fake.now = day1
+        r0 = w.create_new_recording('Op')
+        w.save_recording(r0)
+        ids[r0.id] = (0, day1)
+        fake.now = day2
+        holder.update(fake=fake, cm=cm, ids=ids)
+
+        def worker(i):
+            def fn():
+                rec = w.create_new_recording('Op')
+                rec.add_metadata({'i': i})
+                ids[rec.id] = (i, day2)
+                w.save_recording(rec)
+            return fn
+
+        def main():
+            ths = [sched.Thread(target=worker(i), name='rec%d' % i) for i in (1, 2)]
+            for t in ths:
+                t.start()
+            for t in ths:
+                t.join()
+        return main
+
+    def on_run(rec, desc):
+        fake, ids = holder['fake'], holder['ids']
+        try:
+            ctx.count('day_change_schedules')
+            if rec.aborted or rec.error is not None:
+                if rec.error is not None:
+                    ctx.violation('recording at the day change raised %s' % type(rec.error).__name__, {'day_change': True, 'error': repr(rec.error)[:200]})
+                return
+            reader = fake.cassette('r', key_prefix='dc', read_only=True)
+            for s, e in ((day2, None), (day2, day2 + dt.timedelta(hours=1)), (day1.replace(hour=0, minute=0, second=0), day1 + dt.timedelta(seconds=10)),
+                         (day1, day2)):
+                query(ctx, reader, fake, ids, s, e, day2 + dt.timedelta(minutes=5), None, 'day-change, two recording threads')
+        finally:
+            holder['cm'].__exit__(None, None, None)
+    runs, complete = S.explore_dfs(make, tg, 1, on_run, max_runs=200 if ctx.quick else 5000)
+    ctx.note('day_change_dfs', {'runs': runs, 'complete': complete})
+    S.explore_random(make, tg, ctx.budget(30, 1500), ctx.rng, on_run)
 
 
 def run(ctx):
@@ -115,7 +175,9 @@ def run(ctx):
         fake = FakeS3()
         with fake.installed():
             prefix = rng.choice(['', 'p', 'p/q'])
-            inst = sorted(T0 + dt.timedelta(minutes=rng.randrange(0, 6 * 24 * 60), seconds=rng.randrange(60)) for _ in range(rng.randrange(1, 30)))
+            subsec = rng.random() < 0.5       # instants and bounds that do not fall on whole seconds
+            inst = sorted(T0 + dt.timedelta(minutes=rng.randrange(0, 6 * 24 * 60), seconds=rng.randrange(60),
+                                            microseconds=rng.choice([0, 1, 100000, 400000, 500000, 999999]) if subsec else 0) for _ in range(rng.randrange(1, 30)))
             ids = build(fake, inst, prefix)
             reader = fake.cassette('r', key_prefix=prefix, read_only=True)
             for _ in range(40):
@@ -130,7 +192,15 @@ def run(ctx):
                     e = s + dt.timedelta(minutes=rng.randrange(0, 5 * 24 * 60))
                     if rng.random() < 0.3 and inst:
                         e = rng.choice(inst) + dt.timedelta(seconds=rng.choice([-1, 0, 1]))
+                    if subsec and rng.random() < 0.5 and inst:
+                        e = rng.choice(inst).replace(microsecond=0) + dt.timedelta(microseconds=rng.choice([0, 1, 250000, 500000, 999999]))
+                        ctx.count('bounds_within_a_second')
                     now = T0 + dt.timedelta(days=8)
+                if subsec and rng.random() < 0.4 and inst:
+                    s = rng.choice(inst).replace(microsecond=0) + dt.timedelta(microseconds=rng.choice([0, 1, 250000, 500000, 999999]))
+                    if e is not None and e < s:
+                        e = s + dt.timedelta(minutes=rng.randrange(0, 3 * 24 * 60))
+                    ctx.count('bounds_within_a_second')
                 query(ctx, reader, fake, ids, s, e, now, rng.choice([None, None, {'even': True}]), 'random')
     # long windows (weeks to months, across month and year boundaries, December included): sparse recordings over 14 months
     fake = FakeS3()
@@ -181,6 +251,8 @@ def run(ctx):
                 if set(got[g]) != exp or len(got[g]) != len(set(got[g])):
                     ctx.violation('a time-window listing consumed while another listing of the same cassette was in flight is not exact',
                                   {'windows': [list(map(str, w)) for w in wins], 'listing': g, 'outside': len(set(got[g]) - exp), 'missed': len(exp - set(got[g]))})
+    if ctx.shard == 0:
+        concurrent_day_change(ctx)
     ctx.sample({'recordings': 'one per hour from %s for 96 h' % T0, 'query': {'start': str(hours[20]), 'end': str(hours[30])},
                 'expected_ids': 11})
     ctx.sample({'start': str(hours[22]), 'end': str(hours[25]), 'note': 'window crossing midnight with end earlier in the day than start'})
